@@ -563,7 +563,8 @@ pub fn check(spec: &'static CheckSpec, thorough: bool) -> i32 {
     let known = load_known();
     let mut violations_out: Vec<(String, String)> = Vec::new(); // (property, replay path)
     let mut known_hits: Vec<String> = Vec::new();
-    let replays_dir = Path::new(VERIF_DIR).join("replays");
+    let out_dir = std::env::var("VERIF_OUT").unwrap_or_else(|_| VERIF_DIR.to_string());
+    let replays_dir = Path::new(&out_dir).join("replays");
     std::fs::create_dir_all(&replays_dir).ok();
     candidates.sort_by(|a, b| a.class.cmp(&b.class));
     let mut reported = 0;
@@ -694,7 +695,7 @@ pub fn check(spec: &'static CheckSpec, thorough: bool) -> i32 {
         "wall_s": wall,
         "violations": violations_out.len(),
     });
-    let evdir = Path::new(VERIF_DIR).join("evidence");
+    let evdir = Path::new(&out_dir).join("evidence");
     std::fs::create_dir_all(&evdir).ok();
     std::fs::write(evdir.join(format!("{}.json", spec.property)), serde_json::to_vec_pretty(&evidence).unwrap()).expect("write evidence");
 
